@@ -112,6 +112,7 @@ class _Builder:
             callee = self.callee_of(t)
             if callee is None or callee.path in stk or not self.policy(self.p, callee):
                 continue
+            self._chain = stk + (callee.path,)
             if callee.j.get("asyncness") or self._is_async_wrapper(callee):
                 new = self._inline_await(bb, callee)
             else:
@@ -176,7 +177,7 @@ class _Builder:
         new = []
         for cb in cj["blocks"]:
             nb = {"cleanup": cb["cleanup"], "stmts": [self._apply_subst(_remap(s, lmap, bmap, poff), sub) for s in cb["stmts"]],
-                  "term": self._apply_subst(_remap_term(cb["term"], lmap, bmap, poff), sub), "file": callee.file, "from": callee.path}
+                  "term": self._apply_subst(_remap_term(cb["term"], lmap, bmap, poff), sub), "file": callee.file, "from": callee.path, "from_bb": len(new), "chain": list(getattr(self, "_chain", ()))}
             for k in cb:
                 if k not in nb:
                     nb[k] = copy.deepcopy(cb[k])
